@@ -1,9 +1,20 @@
 import TextxVerif.Reg
-import Mathlib.Data.List.Nodup
 /-! Helper lemmas for the registry machine (C26): dictionaries, entry-point
 loading, the per-call simulation between `Reg.step` and `Reg.Spec.Step`,
 frame and freshness invariants. -/
 namespace Reg
+
+/-! ## `Nodup` helpers (core only) -/
+
+theorem nodup_of_map {α β : Type} (f : α → β) {l : List α} (h : (l.map f).Nodup) : l.Nodup :=
+  (List.pairwise_map.1 h).imp (fun hne e => hne (congrArg f e))
+
+theorem nodup_filter {α : Type} (p : α → Bool) {l : List α} (h : l.Nodup) : (l.filter p).Nodup :=
+  List.Pairwise.filter p h
+
+theorem nodup_map_on {α β : Type} {l : List α} {f : α → β}
+    (inj : ∀ x, x ∈ l → ∀ y, y ∈ l → f x = f y → x = y) (h : l.Nodup) : (l.map f).Nodup :=
+  List.pairwise_map.2 (List.Pairwise.imp_of_mem (fun hx hy hne e => hne (inj _ hx _ hy e)) h)
 
 /-! ## dictionaries -/
 
@@ -173,8 +184,8 @@ theorem LWF_dset (E : Env) (ls : Dict LangDesc) (d : LangDesc) (h : LWF E ls) :
 
 /-- in a well-formed language dict, the descriptors are pairwise distinct -/
 theorem LWF_vals_nodup (E : Env) (ls : Dict LangDesc) (h : LWF E ls) : (ls.map (·.2)).Nodup := by
-  have hnd : ls.Nodup := List.Nodup.of_map _ h.1
-  refine List.Nodup.map_on ?_ hnd
+  have hnd : ls.Nodup := nodup_of_map _ h.1
+  refine nodup_map_on ?_ hnd
   intro x hx y hy hxy
   have hx1 := h.2 x hx
   have hy1 := h.2 y hy
@@ -420,12 +431,12 @@ theorem mem_gkeysOf (gs : Dict (Dict GenDesc)) (hw : GWF gs) (l t : String) :
 
 theorem gkeysOf_nodup (gs : Dict (Dict GenDesc)) (hw : GWF gs) : (gkeysOf gs).Nodup := by
   unfold gkeysOf
-  rw [List.nodup_flatMap]
+  apply List.pairwise_flatMap.2
   constructor
   · intro p hp
     have := hw.2 p hp
     unfold keys at this
-    refine List.Nodup.map_on ?_ (List.Nodup.of_map _ this)
+    refine nodup_map_on ?_ (nodup_of_map _ this)
     intro x hx y hy hxy
     simp only [Prod.mk.injEq, true_and] at hxy
     have hx' := mem_dget_of_nodup p.2 (hw.2 p hp) x.1 x.2 hx
@@ -435,13 +446,11 @@ theorem gkeysOf_nodup (gs : Dict (Dict GenDesc)) (hw : GWF gs) : (gkeysOf gs).No
     exact Prod.ext hxy (Option.some.inj hy')
   · have h1 := List.pairwise_map.1 (show List.Pairwise (· ≠ ·) (gs.map (·.1)) from hw.1)
     refine h1.imp ?_
-    intro a b hab
-    simp only [Function.onFun]
-    intro x hxa hxb
+    intro a b hab x hxa y hyb e
     obtain ⟨_, _, rfl⟩ := List.mem_map.1 hxa
-    obtain ⟨_, _, e⟩ := List.mem_map.1 hxb
+    obtain ⟨_, _, rfl⟩ := List.mem_map.1 hyb
     simp only [Prod.mk.injEq] at e
-    exact hab e.1.symm
+    exact hab e.1
 
 /-! ## simulation: one call of the machine is one step of the specification -/
 
@@ -617,7 +626,7 @@ theorem registered_iff (E : Env) (s : St) (hw : WF E s) (d : LangDesc) :
 
 theorem enumerates_cur (E : Env) (s : St) (hw : WF E s) (f : String) :
     Spec.Enumerates E (s.abs E) f (((s.curL E).map (·.2)).filter (patMatches E f)) := by
-  refine ⟨(LWF_vals_nodup E _ hw.1).filter _, ?_⟩
+  refine ⟨nodup_filter _ (LWF_vals_nodup E _ hw.1), ?_⟩
   intro d
   rw [List.mem_filter, registered_iff E s hw]
 
@@ -817,5 +826,810 @@ theorem run_append (E : Env) : ∀ (a b : List Op) (s : St),
   | [], b, s => rfl
   | op :: a, b, s => by
     simp only [List.cons_append, run, run_append E a b]
+
+/-! ## the specification: frame properties and invariants -/
+
+theorem Spec.metamodel_frame (E : Env) (a : Spec) (n : String) (kw : Nat) :
+    (Spec.metamodel E a n kw).1.L = a.L ∧ (Spec.metamodel E a n kw).1.G = a.G ∧
+    a.serial ≤ (Spec.metamodel E a n kw).1.serial := by
+  unfold Spec.metamodel
+  simp only
+  split
+  · exact ⟨rfl, rfl, Nat.le_refl _⟩
+  · split
+    · exact ⟨rfl, rfl, Nat.le_refl _⟩
+    · split
+      · exact ⟨rfl, rfl, Nat.le_refl _⟩
+      · exact ⟨rfl, rfl, Nat.le_succ _⟩
+      · exact ⟨rfl, rfl, Nat.le_refl _⟩
+      · exact ⟨rfl, rfl, Nat.le_refl _⟩
+
+/-- a call without keyword arguments never replaces a cached meta-model -/
+theorem Spec.metamodel_keep (E : Env) (a : Spec) (n : String) (k : String) (m : MM)
+    (h : a.C k = some m) : (Spec.metamodel E a n 0).1.C k = some m := by
+  unfold Spec.metamodel
+  simp only
+  split
+  · exact h
+  · rename_i hno
+    have hne : ¬ k = E.lower n := by
+      intro e
+      subst e
+      exact hno m h rfl
+    split
+    · exact h
+    · split
+      · simp only [fupd, hne, if_false]; exact h
+      · simp only [fupd, hne, if_false]; exact h
+      · exact h
+      · exact h
+
+/-- serial numbers handed out so far stay below the counter -/
+def Spec.Bound (a : Spec) : Prop := ∀ k i b w, a.C k = some (.made i b w) → i < a.serial
+
+theorem Spec.metamodel_bound (E : Env) (a : Spec) (n : String) (kw : Nat) (hb : a.Bound) :
+    (Spec.metamodel E a n kw).1.Bound ∧
+    ∀ m, (Spec.metamodel E a n kw).2 = .ok m → ∀ i b w, m = .made i b w → i < (Spec.metamodel E a n kw).1.serial := by
+  unfold Spec.metamodel
+  simp only
+  split
+  · rename_i m hc
+    refine ⟨hb, ?_⟩
+    intro m' hm' i b w e
+    simp only [Out.ok.injEq] at hm'
+    subst hm'; subst e
+    exact hb _ _ _ _ hc
+  · split
+    · exact ⟨hb, by intro m hm; cases hm⟩
+    · split
+      · refine ⟨?_, ?_⟩
+        · intro k i b w hk
+          simp only [fupd] at hk
+          split at hk
+          · cases hk
+          · exact hb k i b w hk
+        · intro m hm i b w e
+          simp only [Out.ok.injEq] at hm
+          subst hm; cases e
+      · refine ⟨?_, ?_⟩
+        · intro k i b w hk
+          simp only [fupd] at hk
+          split at hk
+          · simp only [Option.some.injEq, MM.made.injEq] at hk
+            simp only; omega
+          · have := hb k i b w hk
+            simp only; omega
+        · intro m hm i b w e
+          simp only [Out.ok.injEq] at hm
+          subst hm
+          simp only [MM.made.injEq] at e
+          simp only; omega
+      · exact ⟨hb, by intro m hm; cases hm⟩
+      · exact ⟨hb, by intro m hm; cases hm⟩
+
+theorem Spec.mmLoop_frame (E : Env) : ∀ (ds : List LangDesc) (a : Spec),
+    (Spec.mmLoop E a ds).1.L = a.L ∧ (Spec.mmLoop E a ds).1.G = a.G ∧
+    a.serial ≤ (Spec.mmLoop E a ds).1.serial ∧
+    (∀ k m, a.C k = some m → (Spec.mmLoop E a ds).1.C k = some m) ∧
+    (a.Bound → (Spec.mmLoop E a ds).1.Bound ∧
+      ∀ ms, (Spec.mmLoop E a ds).2 = .ok ms → ∀ i b w, .made i b w ∈ ms → i < (Spec.mmLoop E a ds).1.serial)
+  | [], a => ⟨rfl, rfl, Nat.le_refl _, fun _ _ h => h, fun hb => ⟨hb, by
+      intro ms hms i b w hm
+      simp only [Spec.mmLoop, Out.ok.injEq] at hms
+      subst hms; simp at hm⟩⟩
+  | d :: ds, a => by
+    obtain ⟨f1, f2, f3⟩ := Spec.metamodel_frame E a d.name 0
+    have f4 := Spec.metamodel_keep E a d.name
+    have f5 := Spec.metamodel_bound E a d.name 0
+    unfold Spec.mmLoop
+    cases hr : Spec.metamodel E a d.name 0 with
+    | mk a1 o1 =>
+      rw [hr] at f1 f2 f3 f4 f5
+      simp only at f1 f2 f3 f4 f5 ⊢
+      cases o1 with
+      | raise r => exact ⟨f1, f2, f3, f4, fun hb => ⟨(f5 hb).1, by intro ms hms; cases hms⟩⟩
+      | ok m =>
+        obtain ⟨g1, g2, g3, g4, g5⟩ := Spec.mmLoop_frame E ds a1
+        simp only
+        cases hr2 : Spec.mmLoop E a1 ds with
+        | mk a2 o2 =>
+          rw [hr2] at g1 g2 g3 g4 g5
+          simp only at g1 g2 g3 g4 g5 ⊢
+          have hcommon : a2.L = a.L ∧ a2.G = a.G ∧ a.serial ≤ a2.serial ∧
+              (∀ k m, a.C k = some m → a2.C k = some m) :=
+            ⟨g1.trans f1, g2.trans f2, Nat.le_trans f3 g3, fun k m h => g4 k m (f4 k m h)⟩
+          cases o2 with
+          | raise r =>
+            simp only
+            exact ⟨hcommon.1, hcommon.2.1, hcommon.2.2.1, hcommon.2.2.2,
+              fun hb => ⟨(g5 (f5 hb).1).1, by intro ms hms; cases hms⟩⟩
+          | ok ms =>
+            simp only
+            refine ⟨hcommon.1, hcommon.2.1, hcommon.2.2.1, hcommon.2.2.2, fun hb => ⟨(g5 (f5 hb).1).1, ?_⟩⟩
+            intro ms' hms' i b w hm
+            simp only [Out.ok.injEq] at hms'
+            subst hms'
+            rcases List.mem_cons.1 hm with e | e
+            · have := (f5 hb).2 m rfl i b w e.symm
+              omega
+            · exact (g5 (f5 hb).1).2 ms rfl i b w e
+
+theorem Spec.metamodel_raise (E : Env) (a : Spec) (n : String) (kw : Nat) (r : Res)
+    (h : (Spec.metamodel E a n kw).2 = .raise r) : r.mmObjs = [] := by
+  unfold Spec.metamodel at h
+  simp only at h
+  split at h
+  · cases h
+  · split at h
+    · cases h; rfl
+    · split at h
+      · cases h
+      · cases h
+      · cases h; rfl
+      · cases h; rfl
+
+theorem Spec.mmLoop_raise (E : Env) : ∀ (ds : List LangDesc) (a : Spec) (r : Res),
+    (Spec.mmLoop E a ds).2 = .raise r → r.mmObjs = []
+  | [], a, r, h => by simp [Spec.mmLoop] at h
+  | d :: ds, a, r, h => by
+    unfold Spec.mmLoop at h
+    cases hr : Spec.metamodel E a d.name 0 with
+    | mk a1 o1 =>
+      have h1 := Spec.metamodel_raise E a d.name 0
+      rw [hr] at h h1
+      simp only at h h1
+      cases o1 with
+      | raise r1 =>
+        simp only [Out.raise.injEq] at h
+        subst h; exact h1 r1 rfl
+      | ok m =>
+        simp only at h
+        cases hr2 : Spec.mmLoop E a1 ds with
+        | mk a2 o2 =>
+          have h2 := Spec.mmLoop_raise E ds a1
+          rw [hr2] at h h2
+          simp only at h h2
+          cases o2 with
+          | raise r2 =>
+            simp only [Out.raise.injEq] at h
+            subst h; exact h2 r2 rfl
+          | ok ms => cases h
+
+theorem Spec.Step_frame (E : Env) (a a' : Spec) (op : Op) (r : Res) (h : Spec.Step E a op r a') :
+    ((∀ d, op ≠ .regLang d) → op ≠ .clearLangs → a'.L = a.L) ∧
+    ((∀ g, op ≠ .regGen g) → op ≠ .clearGens → a'.G = a.G) ∧
+    a.serial ≤ a'.serial ∧
+    (op.keepsCache = true → ∀ k m, a.C k = some m → a'.C k = some m) ∧
+    (a.Bound → a'.Bound ∧ ∀ i b w, MM.made i b w ∈ r.mmObjs → i < a'.serial) := by
+  have same : ∀ (r : Res), r.mmObjs = [] →
+      ((∀ d, op ≠ .regLang d) → op ≠ .clearLangs → a.L = a.L) ∧
+      ((∀ g, op ≠ .regGen g) → op ≠ .clearGens → a.G = a.G) ∧
+      a.serial ≤ a.serial ∧
+      (op.keepsCache = true → ∀ k m, a.C k = some m → a.C k = some m) ∧
+      (a.Bound → a.Bound ∧ ∀ i b w, MM.made i b w ∈ r.mmObjs → i < a.serial) := by
+    intro r hr
+    exact ⟨fun _ _ => rfl, fun _ _ => rfl, Nat.le_refl _, fun _ _ _ h => h,
+      fun hb => ⟨hb, by intro i b w hm; rw [hr] at hm; simp at hm⟩⟩
+  cases op with
+  | regLang d =>
+    rcases h with ⟨_, hr, ha⟩ | ⟨_, hr, ha⟩
+    · subst ha; subst hr; exact same _ rfl
+    · subst ha; subst hr
+      exact ⟨fun h => absurd rfl (h d), fun _ _ => rfl, Nat.le_refl _, fun _ _ _ h => h,
+        fun hb => ⟨hb, by intro i b w hm; simp [Res.mmObjs] at hm⟩⟩
+  | lang n =>
+    obtain ⟨ha, hr⟩ := h
+    subst ha; subst hr
+    apply same
+    split <;> rfl
+  | langKeys =>
+    obtain ⟨ha, ks, hr, _⟩ := h
+    subst ha; subst hr; exact same _ rfl
+  | clearLangs =>
+    obtain ⟨hr, ha⟩ := h
+    subst ha; subst hr
+    exact ⟨fun _ h => absurd rfl h, fun _ _ => rfl, Nat.le_refl _, fun h => by simp [Op.keepsCache] at h,
+      fun _ => ⟨by intro k i b w hk; simp at hk, by intro i b w hm; simp [Res.mmObjs] at hm⟩⟩
+  | mmLang n kw =>
+    obtain ⟨ha, hr⟩ := h
+    subst ha; subst hr
+    obtain ⟨f1, f2, f3⟩ := Spec.metamodel_frame E a n kw
+    refine ⟨fun _ _ => f1, fun _ _ => f2, f3, ?_, ?_⟩
+    · intro hk k m hc
+      simp only [Op.keepsCache, beq_iff_eq] at hk
+      subst hk
+      exact Spec.metamodel_keep E a n k m hc
+    · intro hb
+      obtain ⟨b1, b2⟩ := Spec.metamodel_bound E a n kw hb
+      refine ⟨b1, ?_⟩
+      intro i b w hm
+      cases ho : (Spec.metamodel E a n kw).2 with
+      | raise r =>
+        rw [ho] at hm
+        simp only [Out.res] at hm
+        rw [Spec.metamodel_raise E a n kw r ho] at hm; simp at hm
+      | ok m =>
+        rw [ho] at hm
+        simp only [Out.res, Res.mmObjs, List.mem_singleton] at hm
+        exact b2 m ho i b w hm.symm
+  | langsForFile f =>
+    obtain ⟨ha, ds, hr, _⟩ := h
+    subst ha; subst hr; exact same _ rfl
+  | langForFile f =>
+    obtain ⟨ha, h⟩ := h
+    subst ha
+    rcases h with ⟨d, _, hr⟩ | ⟨_, hr⟩ <;> (subst hr; exact same _ rfl)
+  | mmsForFile f =>
+    obtain ⟨ds, _, ha, hr⟩ := h
+    subst ha; subst hr
+    obtain ⟨g1, g2, g3, g4, g5⟩ := Spec.mmLoop_frame E ds a
+    refine ⟨fun _ _ => g1, fun _ _ => g2, g3, fun _ => g4, ?_⟩
+    intro hb
+    refine ⟨(g5 hb).1, ?_⟩
+    intro i b w hm
+    cases ho : (Spec.mmLoop E a ds).2 with
+    | raise r =>
+      rw [ho] at hm
+      simp only [Out.res] at hm
+      rw [Spec.mmLoop_raise E ds a r ho] at hm; simp at hm
+    | ok ms =>
+      rw [ho] at hm
+      simp only [Out.res, Res.mmObjs] at hm
+      exact (g5 hb).2 ms ho i b w hm
+  | mmForFile f kw =>
+    rcases h with ⟨d, _, ha, hr⟩ | ⟨_, hr, ha⟩
+    · subst ha; subst hr
+      obtain ⟨f1, f2, f3⟩ := Spec.metamodel_frame E a d.name kw
+      refine ⟨fun _ _ => f1, fun _ _ => f2, f3, ?_, ?_⟩
+      · intro hk k m hc
+        simp only [Op.keepsCache, beq_iff_eq] at hk
+        subst hk
+        exact Spec.metamodel_keep E a d.name k m hc
+      · intro hb
+        obtain ⟨b1, b2⟩ := Spec.metamodel_bound E a d.name kw hb
+        refine ⟨b1, ?_⟩
+        intro i b w hm
+        cases ho : (Spec.metamodel E a d.name kw).2 with
+        | raise r =>
+          rw [ho] at hm
+          simp only [Out.res] at hm
+          rw [Spec.metamodel_raise E a d.name kw r ho] at hm; simp at hm
+        | ok m =>
+          rw [ho] at hm
+          simp only [Out.res, Res.mmObjs, List.mem_singleton] at hm
+          exact b2 m ho i b w hm.symm
+    · subst ha; subst hr; exact same _ rfl
+  | regGen g =>
+    rcases h with ⟨_, hr, ha⟩ | ⟨_, hr, ha⟩
+    · subst ha; subst hr; exact same _ rfl
+    · subst ha; subst hr
+      exact ⟨fun _ _ => rfl, fun h => absurd rfl (h g), Nat.le_refl _, fun _ _ _ h => h,
+        fun hb => ⟨hb, by intro i b w hm; simp [Res.mmObjs] at hm⟩⟩
+  | gen l t any =>
+    obtain ⟨ha, hr⟩ := h
+    subst ha; subst hr
+    apply same
+    split <;> rfl
+  | genKeys =>
+    obtain ⟨ha, ks, hr, _⟩ := h
+    subst ha; subst hr; exact same _ rfl
+  | clearGens =>
+    obtain ⟨hr, ha⟩ := h
+    subst ha; subst hr
+    exact ⟨fun _ _ => rfl, fun _ h => absurd rfl h, Nat.le_refl _, fun _ _ _ h => h,
+      fun hb => ⟨hb, by intro i b w hm; simp [Res.mmObjs] at hm⟩⟩
+
+/-- a registered language stays registered until the registry is cleared -/
+theorem Spec.Step_L_keep (E : Env) (a a' : Spec) (op : Op) (r : Res) (h : Spec.Step E a op r a')
+    (hop : op ≠ .clearLangs) (k : String) (d : LangDesc) (hk : a.L k = some d) : a'.L k = some d := by
+  by_cases hreg : ∃ d0, op = .regLang d0
+  · obtain ⟨d0, rfl⟩ := hreg
+    rcases h with ⟨_, _, ha⟩ | ⟨hn, _, ha⟩
+    · subst ha; exact hk
+    · subst ha
+      simp only [fupd]
+      have : ¬ k = E.lower d0.name := by intro e; subst e; rw [hn] at hk; cases hk
+      simp only [this, if_false]; exact hk
+  · have := (Spec.Step_frame E a a' op r h).1 (fun d e => hreg ⟨d, e⟩) hop
+    rw [this]; exact hk
+
+theorem Spec.Step_G_keep (E : Env) (a a' : Spec) (op : Op) (r : Res) (h : Spec.Step E a op r a')
+    (hop : op ≠ .clearGens) (l t : String) (g : GenDesc) (hk : a.G l t = some g) : a'.G l t = some g := by
+  by_cases hreg : ∃ g0, op = .regGen g0
+  · obtain ⟨g0, rfl⟩ := hreg
+    rcases h with ⟨_, _, ha⟩ | ⟨hn, _, ha⟩
+    · subst ha; exact hk
+    · subst ha
+      simp only
+      have : ¬ (l = E.lower g0.language ∧ t = E.lower g0.target) := by
+        rintro ⟨e1, e2⟩; subst e1; subst e2; rw [hn] at hk; cases hk
+      simp only [this, if_false]; exact hk
+  · have := (Spec.Step_frame E a a' op r h).2.1 (fun d e => hreg ⟨d, e⟩) hop
+    rw [this]; exact hk
+
+/-! ## the registered set as a function of the history -/
+
+/-- the abstract language map holds exactly the descriptors of `l`, each under its folded name -/
+def LiveRel (E : Env) (a : Spec) (l : List LangDesc) : Prop :=
+  ∀ k d, a.L k = some d ↔ (d ∈ l ∧ k = E.lower d.name)
+
+def GLiveRel (E : Env) (a : Spec) (l : List GenDesc) : Prop :=
+  ∀ x y g, a.G x y = some g ↔ (g ∈ l ∧ x = E.lower g.language ∧ y = E.lower g.target)
+
+theorem epMap_iff (E : Env) (hE : E.Ok) (k : String) (d : LangDesc) :
+    epMap E k = some d ↔ (d ∈ E.eps ∧ k = E.lower d.name) := by
+  constructor
+  · intro h
+    obtain ⟨h1, h2⟩ := epMap_some E k d h
+    exact ⟨h1, h2.symm⟩
+  · rintro ⟨h1, rfl⟩
+    exact epMap_self E hE d h1
+
+theorem gepMap_iff (E : Env) (hE : E.Ok) (x y : String) (g : GenDesc) :
+    gepMap E x y = some g ↔ (g ∈ E.geps ∧ x = E.lower g.language ∧ y = E.lower g.target) := by
+  constructor
+  · intro h
+    unfold gepMap at h
+    have h1 := List.mem_of_find?_eq_some h
+    have h2 := List.find?_some h
+    simp only [decide_eq_true_eq] at h2
+    exact ⟨h1, h2.1.symm, h2.2.symm⟩
+  · rintro ⟨h1, rfl, rfl⟩
+    exact gepMap_self E hE g h1
+
+theorem LiveRel_init (E : Env) (hE : E.Ok) : LiveRel E (Spec.init E) E.eps :=
+  fun k d => epMap_iff E hE k d
+
+theorem GLiveRel_init (E : Env) (hE : E.Ok) : GLiveRel E (Spec.init E) E.geps :=
+  fun x y g => gepMap_iff E hE x y g
+
+theorem LiveRel_any (E : Env) (a : Spec) (l : List LangDesc) (hl : LiveRel E a l) (key : String) :
+    l.any (fun d' => E.lower d'.name == key) = (a.L key).isSome := by
+  cases hk : a.L key with
+  | some x =>
+    obtain ⟨h1, h2⟩ := (hl key x).1 hk
+    simp only [Option.isSome_some, List.any_eq_true, beq_iff_eq]
+    exact ⟨x, h1, h2.symm⟩
+  | none =>
+    simp only [Option.isSome_none, List.any_eq_false, beq_iff_eq]
+    intro x hx e
+    have := (hl key x).2 ⟨hx, e.symm⟩
+    rw [hk] at this; cases this
+
+theorem GLiveRel_any (E : Env) (a : Spec) (l : List GenDesc) (hl : GLiveRel E a l) (x y : String) :
+    l.any (fun g' => E.lower g'.language == x && E.lower g'.target == y) = (a.G x y).isSome := by
+  cases hk : a.G x y with
+  | some g =>
+    obtain ⟨h1, h2, h3⟩ := (hl x y g).1 hk
+    simp only [Option.isSome_some, List.any_eq_true, Bool.and_eq_true, beq_iff_eq]
+    exact ⟨g, h1, h2.symm, h3.symm⟩
+  | none =>
+    simp only [Option.isSome_none, List.any_eq_false, Bool.and_eq_true, beq_iff_eq, not_and]
+    intro g hg e1 e2
+    have := (hl x y g).2 ⟨hg, e1.symm, e2.symm⟩
+    rw [hk] at this; cases this
+
+theorem LiveRel_step (E : Env) (hE : E.Ok) (a a' : Spec) (op : Op) (r : Res) (l : List LangDesc)
+    (h : Spec.Step E a op r a') (hl : LiveRel E a l) : LiveRel E a' (liveStep E l op) := by
+  by_cases hreg : ∃ d0, op = .regLang d0
+  · obtain ⟨d0, rfl⟩ := hreg
+    simp only [liveStep, LiveRel_any E a l hl]
+    rcases h with ⟨hs, _, ha⟩ | ⟨hn, _, ha⟩
+    · subst ha; simp only [hs, if_true]; exact hl
+    · subst ha
+      simp only [hn, Option.isSome_none, Bool.false_eq_true, if_false]
+      intro k d
+      simp only [fupd, List.mem_append, List.mem_singleton]
+      by_cases hk : k = E.lower d0.name
+      · subst hk
+        simp only [if_true, Option.some.injEq]
+        constructor
+        · intro e; subst e; exact ⟨Or.inr rfl, rfl⟩
+        · rintro ⟨hd | hd, e⟩
+          · have := (hl _ d).2 ⟨hd, rfl⟩
+            rw [← e, hn] at this; cases this
+          · exact hd.symm
+      · simp only [hk, if_false]
+        rw [hl k d]
+        constructor
+        · rintro ⟨h1, h2⟩; exact ⟨Or.inl h1, h2⟩
+        · rintro ⟨h1 | h1, h2⟩
+          · exact ⟨h1, h2⟩
+          · subst h1; exact absurd h2 hk
+  · by_cases hc : op = .clearLangs
+    · subst hc
+      obtain ⟨_, ha⟩ := h
+      subst ha
+      exact fun k d => epMap_iff E hE k d
+    · have hL := (Spec.Step_frame E a a' op r h).1 (fun d e => hreg ⟨d, e⟩) hc
+      have hls : liveStep E l op = l := by
+        cases op <;> first | rfl | exact absurd rfl hc | exact absurd ⟨_, rfl⟩ hreg
+      rw [hls]
+      intro k d; rw [hL]; exact hl k d
+
+theorem GLiveRel_step (E : Env) (hE : E.Ok) (a a' : Spec) (op : Op) (r : Res) (l : List GenDesc)
+    (h : Spec.Step E a op r a') (hl : GLiveRel E a l) : GLiveRel E a' (gLiveStep E l op) := by
+  by_cases hreg : ∃ g0, op = .regGen g0
+  · obtain ⟨g0, rfl⟩ := hreg
+    simp only [gLiveStep, GLiveRel_any E a l hl]
+    rcases h with ⟨hs, _, ha⟩ | ⟨hn, _, ha⟩
+    · subst ha; simp only [hs, if_true]; exact hl
+    · subst ha
+      simp only [hn, Option.isSome_none, Bool.false_eq_true, if_false]
+      intro x y g
+      simp only [List.mem_append, List.mem_singleton]
+      by_cases hk : x = E.lower g0.language ∧ y = E.lower g0.target
+      · obtain ⟨hx, hy⟩ := hk
+        subst hx; subst hy
+        simp only [and_self, if_true, Option.some.injEq]
+        constructor
+        · intro e; subst e; exact ⟨Or.inr rfl, rfl, rfl⟩
+        · rintro ⟨hd | hd, e1, e2⟩
+          · have := (hl _ _ g).2 ⟨hd, rfl, rfl⟩
+            rw [← e1, ← e2, hn] at this; cases this
+          · exact hd.symm
+      · simp only [hk, if_false]
+        rw [hl x y g]
+        constructor
+        · rintro ⟨h1, h2⟩; exact ⟨Or.inl h1, h2⟩
+        · rintro ⟨h1 | h1, h2⟩
+          · exact ⟨h1, h2⟩
+          · subst h1; exact absurd h2 hk
+  · by_cases hc : op = .clearGens
+    · subst hc
+      obtain ⟨_, ha⟩ := h
+      subst ha
+      exact fun x y g => gepMap_iff E hE x y g
+    · have hG := (Spec.Step_frame E a a' op r h).2.1 (fun d e => hreg ⟨d, e⟩) hc
+      have hls : gLiveStep E l op = l := by
+        cases op <;> first | rfl | exact absurd rfl hc | exact absurd ⟨_, rfl⟩ hreg
+      rw [hls]
+      intro x y g; rw [hG]; exact hl x y g
+
+/-! ## histories of the specification -/
+
+theorem Spec.Run_live (E : Env) (hE : E.Ok) : ∀ (ops : List Op) (a : Spec) (rs : List Res) (a' : Spec)
+    (l : List LangDesc), Spec.Run E a ops rs a' → LiveRel E a l → LiveRel E a' (ops.foldl (liveStep E) l)
+  | [], a, rs, a', l, h, hl => by obtain ⟨_, rfl⟩ := h; exact hl
+  | op :: ops, a, rs, a', l, h, hl => by
+    obtain ⟨r, rs', a1, _, hs, hr⟩ := h
+    exact Spec.Run_live E hE ops a1 rs' a' _ hr (LiveRel_step E hE a a1 op r l hs hl)
+
+theorem Spec.Run_glive (E : Env) (hE : E.Ok) : ∀ (ops : List Op) (a : Spec) (rs : List Res) (a' : Spec)
+    (l : List GenDesc), Spec.Run E a ops rs a' → GLiveRel E a l → GLiveRel E a' (ops.foldl (gLiveStep E) l)
+  | [], a, rs, a', l, h, hl => by obtain ⟨_, rfl⟩ := h; exact hl
+  | op :: ops, a, rs, a', l, h, hl => by
+    obtain ⟨r, rs', a1, _, hs, hr⟩ := h
+    exact Spec.Run_glive E hE ops a1 rs' a' _ hr (GLiveRel_step E hE a a1 op r l hs hl)
+
+theorem Spec.Run_L_keep (E : Env) : ∀ (ops : List Op) (a : Spec) (rs : List Res) (a' : Spec),
+    Spec.Run E a ops rs a' → Op.clearLangs ∉ ops → ∀ k d, a.L k = some d → a'.L k = some d
+  | [], a, rs, a', h, _, k, d, hk => by obtain ⟨_, rfl⟩ := h; exact hk
+  | op :: ops, a, rs, a', h, hnc, k, d, hk => by
+    obtain ⟨r, rs', a1, _, hs, hr⟩ := h
+    simp only [List.mem_cons, not_or] at hnc
+    exact Spec.Run_L_keep E ops a1 rs' a' hr hnc.2 k d
+      (Spec.Step_L_keep E a a1 op r hs (fun e => hnc.1 e.symm) k d hk)
+
+theorem Spec.Run_G_keep (E : Env) : ∀ (ops : List Op) (a : Spec) (rs : List Res) (a' : Spec),
+    Spec.Run E a ops rs a' → Op.clearGens ∉ ops → ∀ x y g, a.G x y = some g → a'.G x y = some g
+  | [], a, rs, a', h, _, x, y, g, hk => by obtain ⟨_, rfl⟩ := h; exact hk
+  | op :: ops, a, rs, a', h, hnc, x, y, g, hk => by
+    obtain ⟨r, rs', a1, _, hs, hr⟩ := h
+    simp only [List.mem_cons, not_or] at hnc
+    exact Spec.Run_G_keep E ops a1 rs' a' hr hnc.2 x y g
+      (Spec.Step_G_keep E a a1 op r hs (fun e => hnc.1 e.symm) x y g hk)
+
+theorem Spec.Run_C_keep (E : Env) : ∀ (ops : List Op) (a : Spec) (rs : List Res) (a' : Spec),
+    Spec.Run E a ops rs a' → (∀ op, op ∈ ops → op.keepsCache = true) →
+    ∀ k m, a.C k = some m → a'.C k = some m
+  | [], a, rs, a', h, _, k, m, hk => by obtain ⟨_, rfl⟩ := h; exact hk
+  | op :: ops, a, rs, a', h, hq, k, m, hk => by
+    obtain ⟨r, rs', a1, _, hs, hr⟩ := h
+    exact Spec.Run_C_keep E ops a1 rs' a' hr (fun o ho => hq o (List.mem_cons_of_mem _ ho)) k m
+      ((Spec.Step_frame E a a1 op r hs).2.2.2.1 (hq op (by simp)) k m hk)
+
+theorem Spec.Run_bound (E : Env) : ∀ (ops : List Op) (a : Spec) (rs : List Res) (a' : Spec),
+    Spec.Run E a ops rs a' → a.Bound →
+    a'.Bound ∧ a.serial ≤ a'.serial ∧
+      ∀ r, r ∈ rs → ∀ i b w, MM.made i b w ∈ r.mmObjs → i < a'.serial
+  | [], a, rs, a', h, hb => by
+    obtain ⟨rfl, rfl⟩ := h
+    exact ⟨hb, Nat.le_refl _, by simp⟩
+  | op :: ops, a, rs, a', h, hb => by
+    obtain ⟨r, rs', a1, rfl, hs, hr⟩ := h
+    obtain ⟨_, _, f3, _, f5⟩ := Spec.Step_frame E a a1 op r hs
+    obtain ⟨b1, b2⟩ := f5 hb
+    obtain ⟨c1, c2, c3⟩ := Spec.Run_bound E ops a1 rs' a' hr b1
+    refine ⟨c1, Nat.le_trans f3 c2, ?_⟩
+    intro r0 hr0 i b w hm
+    rcases List.mem_cons.1 hr0 with e | e
+    · subst e
+      have := b2 i b w hm
+      omega
+    · exact c3 r0 e i b w hm
+
+theorem Spec.init_bound (E : Env) : (Spec.init E).Bound := by
+  intro k i b w h; simp [Spec.init] at h
+
+/-! ## reachable states -/
+
+theorem after_sim (E : Env) (hE : E.Ok) (ops : List Op) :
+    Spec.Run E (Spec.init E) ops (run E St.init ops).2 ((after E ops).abs E) ∧ WF E (after E ops) := by
+  have := run_sim E hE ops St.init (WF_init E hE)
+  rw [abs_init E hE] at this
+  exact this
+
+theorem after_live (E : Env) (hE : E.Ok) (ops : List Op) : LiveRel E ((after E ops).abs E) (live E ops) :=
+  Spec.Run_live E hE ops _ _ _ _ (after_sim E hE ops).1 (LiveRel_init E hE)
+
+theorem after_glive (E : Env) (hE : E.Ok) (ops : List Op) : GLiveRel E ((after E ops).abs E) (gLive E ops) :=
+  Spec.Run_glive E hE ops _ _ _ _ (after_sim E hE ops).1 (GLiveRel_init E hE)
+
+theorem after_bound (E : Env) (hE : E.Ok) (ops : List Op) :
+    ((after E ops).abs E).Bound ∧
+      ∀ r, r ∈ (run E St.init ops).2 → ∀ i b w, MM.made i b w ∈ r.mmObjs → i < (after E ops).serial := by
+  obtain ⟨h1, _, h3⟩ := Spec.Run_bound E ops _ _ _ (after_sim E hE ops).1 (Spec.init_bound E)
+  exact ⟨h1, h3⟩
+
+theorem after_append (E : Env) (ops ops' : List Op) :
+    after E (ops ++ ops') = (run E (after E ops) ops').1 := by
+  unfold after; rw [run_append]
+
+theorem after_snoc_cons (E : Env) (ops : List Op) (op : Op) (ops' : List Op) :
+    after E (ops ++ op :: ops') = (run E (step E (after E ops) op).1 ops').1 := by
+  rw [after_append]; rfl
+
+theorem registered_live (E : Env) (a : Spec) (l : List LangDesc) (hl : LiveRel E a l) (d : LangDesc) :
+    a.Registered d ↔ d ∈ l := by
+  constructor
+  · rintro ⟨k, hk⟩; exact ((hl k d).1 hk).1
+  · intro hd; exact ⟨_, (hl _ d).2 ⟨hd, rfl⟩⟩
+
+theorem eps_sub_foldl (E : Env) : ∀ (ops : List Op) (l : List LangDesc),
+    (∀ d, d ∈ E.eps → d ∈ l) → ∀ d, d ∈ E.eps → d ∈ ops.foldl (liveStep E) l
+  | [], l, h, d, hd => h d hd
+  | op :: ops, l, h, d, hd => by
+    refine eps_sub_foldl E ops _ ?_ d hd
+    intro x hx
+    cases op <;> simp only [liveStep] <;> first | exact h x hx | exact hx | skip
+    split
+    · exact h x hx
+    · exact List.mem_append_left _ (h x hx)
+
+theorem eps_sub_live (E : Env) (ops : List Op) (d : LangDesc) (hd : d ∈ E.eps) : d ∈ live E ops :=
+  eps_sub_foldl E ops E.eps (fun _ h => h) d hd
+
+theorem geps_sub_foldl (E : Env) : ∀ (ops : List Op) (l : List GenDesc),
+    (∀ g, g ∈ E.geps → g ∈ l) → ∀ g, g ∈ E.geps → g ∈ ops.foldl (gLiveStep E) l
+  | [], l, h, g, hg => h g hg
+  | op :: ops, l, h, g, hg => by
+    refine geps_sub_foldl E ops _ ?_ g hg
+    intro x hx
+    cases op <;> simp only [gLiveStep] <;> first | exact h x hx | exact hx | skip
+    split
+    · exact h x hx
+    · exact List.mem_append_left _ (h x hx)
+
+theorem geps_sub_gLive (E : Env) (ops : List Op) (g : GenDesc) (hg : g ∈ E.geps) : g ∈ gLive E ops :=
+  geps_sub_foldl E ops E.geps (fun _ h => h) g hg
+
+theorem Spec.metamodel_fast (E : Env) (a : Spec) (n : String) (m : MM) (hc : a.C (E.lower n) = some m) :
+    Spec.metamodel E a n 0 = (a, .ok m) := by
+  unfold Spec.metamodel; simp only [hc]
+
+theorem Spec.metamodel_slow (E : Env) (a : Spec) (n : String) (kw : Nat)
+    (hno : ∀ m, a.C (E.lower n) = some m → kw = 0 → False) :
+    Spec.metamodel E a n kw =
+      (match a.L (E.lower n) with
+        | none => (a, .raise .regError)
+        | some d =>
+            match d.mm with
+            | .inst u => ({ a with C := fupd a.C (E.lower n) (.given u) }, .ok (.given u))
+            | .factory =>
+                ({ a with C := fupd a.C (E.lower n) (.made a.serial d.uid kw), serial := a.serial + 1 },
+                  .ok (.made a.serial d.uid kw))
+            | .badFactory => (a, .raise .regError)
+            | .notCallable => (a, .raise .typeError)) := by
+  unfold Spec.metamodel
+  simp only
+  cases hc : a.C (E.lower n) with
+  | none => rfl
+  | some m =>
+    cases kw with
+    | zero => exact absurd rfl (hno m hc)
+    | succ k => rfl
+
+/-- a successful meta-model request leaves its answer in the cache -/
+theorem Spec.metamodel_ok_cached (E : Env) (a : Spec) (n : String) (kw : Nat) (m : MM)
+    (h : (Spec.metamodel E a n kw).2 = .ok m) : (Spec.metamodel E a n kw).1.C (E.lower n) = some m := by
+  by_cases fast : ∃ m', a.C (E.lower n) = some m' ∧ kw = 0
+  · obtain ⟨m', hc, rfl⟩ := fast
+    rw [Spec.metamodel_fast E a n m' hc] at h ⊢
+    simp only [Out.ok.injEq] at h
+    subst h; exact hc
+  · have hno : ∀ m, a.C (E.lower n) = some m → kw = 0 → False := fun m h1 h2 => fast ⟨m, h1, h2⟩
+    rw [Spec.metamodel_slow E a n kw hno] at h ⊢
+    cases hL : a.L (E.lower n) with
+    | none => simp only [hL] at h; cases h
+    | some d =>
+      simp only [hL] at h ⊢
+      cases hm : d.mm with
+      | inst u =>
+        simp only [hm, Out.ok.injEq] at h ⊢
+        subst h; simp [fupd]
+      | factory =>
+        simp only [hm, Out.ok.injEq] at h ⊢
+        subst h; simp [fupd]
+      | badFactory => simp only [hm] at h; cases h
+      | notCallable => simp only [hm] at h; cases h
+
+/-! ## no stale cache -/
+
+/-- every cached meta-model belongs to the language currently registered under its key -/
+def Spec.Coh (a : Spec) : Prop := ∀ k m, a.C k = some m → ∃ d, a.L k = some d ∧ Owns d m
+
+theorem Spec.metamodel_coh (E : Env) (a : Spec) (n : String) (kw : Nat) (hc : a.Coh) :
+    (Spec.metamodel E a n kw).1.Coh ∧
+    ∀ m, (Spec.metamodel E a n kw).2 = .ok m → ∃ d, a.L (E.lower n) = some d ∧ Owns d m := by
+  by_cases fast : ∃ m', a.C (E.lower n) = some m' ∧ kw = 0
+  · obtain ⟨m', hm', rfl⟩ := fast
+    rw [Spec.metamodel_fast E a n m' hm']
+    refine ⟨hc, ?_⟩
+    intro m hm
+    simp only [Out.ok.injEq] at hm
+    subst hm
+    exact hc _ _ hm'
+  · have hno : ∀ m, a.C (E.lower n) = some m → kw = 0 → False := fun m h1 h2 => fast ⟨m, h1, h2⟩
+    rw [Spec.metamodel_slow E a n kw hno]
+    cases hL : a.L (E.lower n) with
+    | none => exact ⟨hc, by intro m hm; cases hm⟩
+    | some d =>
+      simp only
+      cases hm : d.mm with
+      | inst u =>
+        simp only
+        refine ⟨?_, ?_⟩
+        · intro k m hk
+          simp only [fupd] at hk
+          by_cases e : k = E.lower n
+          · subst e
+            simp only [if_true, Option.some.injEq] at hk
+            subst hk
+            exact ⟨d, hL, hm⟩
+          · simp only [e, if_false] at hk
+            exact hc k m hk
+        · intro m hm'
+          simp only [Out.ok.injEq] at hm'
+          subst hm'
+          exact ⟨d, rfl, hm⟩
+      | factory =>
+        simp only
+        refine ⟨?_, ?_⟩
+        · intro k m hk
+          simp only [fupd] at hk
+          by_cases e : k = E.lower n
+          · subst e
+            simp only [if_true, Option.some.injEq] at hk
+            subst hk
+            exact ⟨d, hL, hm, rfl⟩
+          · simp only [e, if_false] at hk
+            exact hc k m hk
+        · intro m hm'
+          simp only [Out.ok.injEq] at hm'
+          subst hm'
+          exact ⟨d, rfl, hm, rfl⟩
+      | badFactory => exact ⟨hc, by intro m hm; cases hm⟩
+      | notCallable => exact ⟨hc, by intro m hm; cases hm⟩
+
+theorem Spec.mmLoop_coh (E : Env) : ∀ (ds : List LangDesc) (a : Spec), a.Coh → (Spec.mmLoop E a ds).1.Coh
+  | [], a, hc => hc
+  | d :: ds, a, hc => by
+    have h1 := (Spec.metamodel_coh E a d.name 0 hc).1
+    unfold Spec.mmLoop
+    cases hr : Spec.metamodel E a d.name 0 with
+    | mk a1 o1 =>
+      rw [hr] at h1
+      simp only at h1 ⊢
+      cases o1 with
+      | raise r => exact h1
+      | ok m =>
+        have h2 := Spec.mmLoop_coh E ds a1 h1
+        simp only
+        cases hr2 : Spec.mmLoop E a1 ds with
+        | mk a2 o2 =>
+          rw [hr2] at h2
+          cases o2 <;> exact h2
+
+theorem Spec.Step_coh (E : Env) (a a' : Spec) (op : Op) (r : Res) (h : Spec.Step E a op r a')
+    (hc : a.Coh) : a'.Coh := by
+  cases op with
+  | regLang d =>
+    rcases h with ⟨_, _, ha⟩ | ⟨hn, _, ha⟩
+    · subst ha; exact hc
+    · subst ha
+      intro k m hk
+      obtain ⟨d0, h1, h2⟩ := hc k m hk
+      refine ⟨d0, ?_, h2⟩
+      simp only [fupd]
+      have : ¬ k = E.lower d.name := by intro e; subst e; rw [hn] at h1; cases h1
+      simp only [this, if_false]; exact h1
+  | lang n => obtain ⟨ha, _⟩ := h; subst ha; exact hc
+  | langKeys => obtain ⟨ha, _⟩ := h; subst ha; exact hc
+  | clearLangs =>
+    obtain ⟨_, ha⟩ := h; subst ha
+    intro k m hk; cases hk
+  | mmLang n kw => obtain ⟨ha, _⟩ := h; subst ha; exact (Spec.metamodel_coh E a n kw hc).1
+  | langsForFile f => obtain ⟨ha, _⟩ := h; subst ha; exact hc
+  | langForFile f => obtain ⟨ha, _⟩ := h; subst ha; exact hc
+  | mmsForFile f => obtain ⟨ds, _, ha, _⟩ := h; subst ha; exact Spec.mmLoop_coh E ds a hc
+  | mmForFile f kw =>
+    rcases h with ⟨d, _, ha, _⟩ | ⟨_, _, ha⟩
+    · subst ha; exact (Spec.metamodel_coh E a d.name kw hc).1
+    · subst ha; exact hc
+  | regGen g =>
+    rcases h with ⟨_, _, ha⟩ | ⟨_, _, ha⟩
+    · subst ha; exact hc
+    · subst ha; exact hc
+  | gen l t any => obtain ⟨ha, _⟩ := h; subst ha; exact hc
+  | genKeys => obtain ⟨ha, _⟩ := h; subst ha; exact hc
+  | clearGens => obtain ⟨_, ha⟩ := h; subst ha; exact hc
+
+theorem Spec.Run_coh (E : Env) : ∀ (ops : List Op) (a : Spec) (rs : List Res) (a' : Spec),
+    Spec.Run E a ops rs a' → a.Coh → a'.Coh
+  | [], a, rs, a', h, hc => by obtain ⟨_, rfl⟩ := h; exact hc
+  | op :: ops, a, rs, a', h, hc => by
+    obtain ⟨r, rs', a1, _, hs, hr⟩ := h
+    exact Spec.Run_coh E ops a1 rs' a' hr (Spec.Step_coh E a a1 op r hs hc)
+
+theorem after_coh (E : Env) (hE : E.Ok) (ops : List Op) : ((after E ops).abs E).Coh :=
+  Spec.Run_coh E ops _ _ _ (after_sim E hE ops).1 (by intro k m h; cases h)
+
+/-! ## the glob model: a pattern matches itself -/
+
+theorem mem_suffixes_self {α : Type} (t : List α) : t ∈ suffixes t := by
+  cases t <;> simp [suffixes]
+
+theorem globMatch_self : ∀ p : List Char, globMatch p p = true
+  | [] => rfl
+  | c :: cs => by
+    unfold globMatch
+    by_cases h : (c == '*') = true
+    · simp only [h, if_true, List.any_eq_true]
+      refine ⟨cs, ?_, globMatch_self cs⟩
+      simp only [suffixes, List.mem_cons]
+      exact Or.inr (mem_suffixes_self cs)
+    · simp only [h, Bool.false_eq_true, if_false, beq_self_eq_true, Bool.or_true, Bool.true_and]
+      exact globMatch_self cs
+
+/-! ## the driver's environment satisfies `Env.Ok` -/
+
+theorem toLower_idem (c : Char) : c.toLower.toLower = c.toLower := by
+  unfold Char.toLower
+  split
+  · rename_i h
+    split
+    · rename_i h2
+      exfalso
+      simp only [UInt32.le_iff_toNat_le] at h h2
+      have := c.val.toNat_lt
+      simp at h h2
+      omega
+    · rfl
+  · simp
+
+theorem asciiLower_idem (s : String) : asciiLower (asciiLower s) = asciiLower s := by
+  unfold asciiLower
+  rw [String.toList_ofList, List.map_map]
+  congr 1
+  apply List.map_congr_left
+  intro c _
+  exact toLower_idem c
+
+theorem asciiEnv_ok (eps : List LangDesc) (geps : List GenDesc)
+    (h1 : (eps.map (fun d => asciiLower d.name)).Nodup)
+    (h2 : (geps.map (fun g => (asciiLower g.language, asciiLower g.target))).Nodup) :
+    (asciiEnv eps geps).Ok :=
+  ⟨asciiLower_idem, h1, h2⟩
 
 end Reg
